@@ -219,3 +219,13 @@ func (n *Node) Token(from *net.UDPAddr, sender [20]byte) (string, error) {
 	}
 	return tok, nil
 }
+
+// PendingQueryOK accepts the goroutines of an outbound query that is parked waiting for its reply
+// (the caller in Server.Query's select and the sender in its resend wait). Used when a scenario
+// deliberately keeps queries open across a quiescent point.
+func PendingQueryOK(g census.G) bool {
+	if g.State != "select" {
+		return false
+	}
+	return g.Has("(*Server).Query") || g.Has("transactionSender") || g.Has("transactionQuerySender")
+}
